@@ -129,6 +129,7 @@ def items(tier):
         if li < 2:
             out.append(dict(kind="response", id="response-%s-scalar-it2-prealloc" % lay, layout=lay, spec=["scalar"] * 3, maxit=2,
                             prealloc=True))
+            out.append(dict(kind="response", id="response-%s-scalar-it2-deep" % lay, layout=lay, spec=["scalar"] * 3, maxit=2, deep=True))
             out.append(dict(kind="response", id="response-%s-scalar-it2-callback-reassigns" % lay, layout=lay, spec=["scalar"] * 3,
                             maxit=2, cb_reassign=True))
         mix = [specs[(li + k) % 3] for k in range(3)]
@@ -899,8 +900,19 @@ def sc_response(V, P, cfg):
     # the constraint does not depend on the second signal (sensitivity None -> zero block)
     lin_idx = [k for k in range(nsig) if not (nsig >= 2 and k == 1)]
     g0, g1 = pym.Signal("g0"), pym.Signal("g1")
-    net = pym.Network(mods["quad"](sx, g0, coef=coefq),
-                      mods["lin"]([sx[k] for k in lin_idx], g1, coef=[coefl[k] for k in lin_idx]))
+    cmid = None
+    if cfg.get("deep") and sizes[0] >= 2:
+        # an intermediate signal between the design and BOTH responses (filter -> objective and constraint): its
+        # sensitivity has to be cleared between the per-response back-propagations
+        cmid = V.reals("cmid", sizes[0], default=1.25)
+        smid = pym.Signal("cmid", cmid.copy())
+        mmid = pym.EinSum([sx[0], smid], expression="i,i->i")
+        src = [mmid.sig_out[0]] + list(sx[1:])
+        net = pym.Network(mmid, mods["quad"](src, g0, coef=coefq),
+                          mods["lin"]([src[k] for k in lin_idx], g1, coef=[coefl[k] for k in lin_idx]))
+    else:
+        net = pym.Network(mods["quad"](sx, g0, coef=coefq),
+                          mods["lin"]([sx[k] for k in lin_idx], g1, coef=[coefl[k] for k in lin_idx]))
 
     def mk(spec, name, **kw):
         if spec == "scalar":
@@ -978,7 +990,8 @@ def sc_response(V, P, cfg):
         """the two responses, from the definition of the user modules"""
         t = 0 if i == 0 else -1
         for j in range(n):
-            t = t + (fq[j] * xv[j] * xv[j] if i == 0 else fl[j] * xv[j])
+            xj = xv[j] * cmid[j] if (cmid is not None and j < lens[0]) else xv[j]
+            t = t + (fq[j] * xj * xj if i == 0 else fl[j] * xj)
         return t
 
     prev_new = None
